@@ -207,3 +207,18 @@ impl RecomputeHeap {
         ));
     }
 }
+
+#[cfg(cormacrelf_incremental_rs_verif)]
+impl RecomputeHeap {
+    /// verification hook: (length, height_lower_bound, number of queues, non-empty queues as ranks)
+    pub(crate) fn verif_info(&self) -> (usize, i32, usize, Vec<(usize, Vec<usize>)>) {
+        let queues = self.queues.borrow();
+        let qs = queues
+            .iter()
+            .enumerate()
+            .filter(|(_, q)| !q.borrow().is_empty())
+            .map(|(h, q)| (h, q.borrow().iter().map(|n| n.verif_rank.get()).collect()))
+            .collect();
+        (self.length.get(), self.height_lower_bound.get(), queues.len(), qs)
+    }
+}
